@@ -132,6 +132,22 @@ theorem write_in_static_faults (cx : Ctx) (fr : Frame) (g : Global) (info : OpIn
           simp only [true_and, not_or] at hro
           exact ⟨by simpa using hro.1, hro.2⟩
 
+/-- **order of the checks** (Go order, pinned by the T-gen fact `Run.loopOrder`): the stack is
+    validated before the read-only test looks at `stack.Back(2)`, so an under-full stack is a
+    stack underflow of that frame in every context — read-only or not — and the read-only test
+    never indexes below the stack. -/
+theorem stack_fault_precedes_read_only (cx : Ctx) (ro : Bool) (fr : Frame) (g : Global) (info : OpInfo)
+    (hent : cx.table.getD (fr.code.getD fr.pc 0).toNat none = some info)
+    (h : fr.stack.length < info.minStack) : stepPre cx ro fr g = .fault .stackUnderflow g := by
+  unfold stepPre
+  simp only [hent, h, if_true]
+
+theorem undefined_opcode_first (cx : Ctx) (ro : Bool) (fr : Frame) (g : Global)
+    (hent : cx.table.getD (fr.code.getD fr.pc 0).toNat none = none) :
+    stepPre cx ro fr g = .fault .invalidOpCode g := by
+  unfold stepPre
+  simp only [hent]
+
 /-- TSTORE tests the flag itself -/
 theorem tstore_in_static_faults (cx : Ctx) (fr : Frame) (loc val : Word) (g : Global) (cgt : Nat) :
     execOp cx true .tstore fr [loc, val] g cgt = .fault .writeProtection g := by
